@@ -1,0 +1,198 @@
+//go:build verif
+
+package ugo
+
+import (
+	"bufio"
+	"encoding/json"
+	"fmt"
+	"os"
+	"sync"
+)
+
+// VerifStepFn, when set, is called before every instruction of VM.loop with
+// the projected state of the VM.
+var VerifStepFn func(vm *VM, fn *CompiledFunction, fi, ip int, op Opcode, sp, nh int)
+
+// VerifSyncFn, when set, is called at named synchronisation points. It may
+// block: the verification scheduler uses it as a gate.
+var VerifSyncFn func(vm *VM, point string)
+
+func verifStep(vm *VM) {
+	f := VerifStepFn
+	if f == nil {
+		return
+	}
+	nh := 0
+	if vm.curFrame.errHandlers != nil {
+		nh = len(vm.curFrame.errHandlers.handlers)
+	}
+	f(vm, vm.curFrame.fn, vm.frameIndex, vm.ip+1, vm.curInsts[vm.ip+1], vm.sp, nh)
+}
+
+func verifSync(vm *VM, point string) {
+	if f := VerifSyncFn; f != nil {
+		f(vm, point)
+	}
+}
+
+// VerifSnap is a projection of the life-cycle state of a VM.
+type VerifSnap struct {
+	Sp         int  `json:"sp"`
+	FrameIndex int  `json:"fi"`
+	Dirty      int  `json:"dirty"`  // non-nil stack slots
+	Frames     int  `json:"frames"` // frames with fn, freeVars or handlers set
+	Mods       int  `json:"mods"`   // len(modulesCache)
+	ModsSet    int  `json:"modsset"`
+	Err        bool `json:"err"`
+	Abort      bool `json:"abort"`
+	Pool       int  `json:"pool"`
+	Globals    bool `json:"globals"`
+	NoPanic    bool `json:"nopanic"`
+}
+
+// VerifSnapshot returns the life-cycle projection. Must not be called while
+// the VM is running.
+func (vm *VM) VerifSnapshot() VerifSnap {
+	s := VerifSnap{Sp: vm.sp, FrameIndex: vm.frameIndex, Mods: len(vm.modulesCache),
+		Err: vm.err != nil, Abort: vm.abort.Load() != 0, Globals: vm.globals != nil,
+		NoPanic: vm.noPanic}
+	for i := range vm.stack {
+		if vm.stack[i] != nil {
+			s.Dirty++
+		}
+	}
+	for i := range vm.frames {
+		f := &vm.frames[i]
+		if f.fn != nil || f.freeVars != nil || f.errHandlers != nil {
+			s.Frames++
+		}
+	}
+	for _, m := range vm.modulesCache {
+		if m != nil {
+			s.ModsSet++
+		}
+	}
+	vm.pool.mu.Lock()
+	s.Pool = len(vm.pool.vms)
+	vm.pool.mu.Unlock()
+	return s
+}
+
+// VerifRoot returns the root VM of the pool tree vm belongs to.
+func (vm *VM) VerifRoot() *VM {
+	if vm.pool.root != nil {
+		return vm.pool.root
+	}
+	return vm
+}
+
+// VerifRegion is the static extent of a try statement in a function:
+// S = position of SETUPTRY, C = catch target (0 if none), F = position of
+// SETUPFINALLY, E = position of the matching THROW 0.
+type VerifRegion struct {
+	S int `json:"s"`
+	C int `json:"c"`
+	F int `json:"f"`
+	E int `json:"e"`
+}
+
+// VerifRegions computes the try regions of an instruction stream.
+func VerifRegions(insts []byte) []VerifRegion {
+	type ins struct{ pos, op, a, b int }
+	var list []ins
+	IterateInstructions(insts, func(pos int, op Opcode, operands []int, _ int) bool {
+		i := ins{pos: pos, op: int(op)}
+		if len(operands) > 0 {
+			i.a = operands[0]
+		}
+		if len(operands) > 1 {
+			i.b = operands[1]
+		}
+		list = append(list, i)
+		return true
+	})
+	out := []VerifRegion{}
+	for k, i := range list {
+		if i.op != int(OpSetupTry) {
+			continue
+		}
+		depth := 0
+		for _, j := range list[k+1:] {
+			if j.pos < i.b {
+				continue
+			}
+			if j.op == int(OpSetupTry) {
+				depth++
+			}
+			if j.op == int(OpThrow) && j.a == 0 {
+				if depth == 0 {
+					out = append(out, VerifRegion{i.pos, i.a, i.b, j.pos})
+					break
+				}
+				depth--
+			}
+		}
+	}
+	return out
+}
+
+// UGO_VERIF_TRACE=<file prefix> makes any binary built with the verif tag
+// (in particular the repository's own test binaries) dump a per-instruction
+// trace of every VM run to <prefix>.<pid>.ndjson.
+func init() {
+	prefix := os.Getenv("UGO_VERIF_TRACE")
+	if prefix == "" {
+		return
+	}
+	f, err := os.Create(fmt.Sprintf("%s.%d.ndjson", prefix, os.Getpid()))
+	if err != nil {
+		panic(err)
+	}
+	w := bufio.NewWriterSize(f, 1<<20)
+	enc := json.NewEncoder(w)
+	var mu sync.Mutex
+	fnids := map[*byte]int{}
+	vmids := map[*VM]int{}
+	vmid := func(vm *VM) int {
+		id, ok := vmids[vm]
+		if !ok {
+			id = len(vmids) + 1
+			vmids[vm] = id
+		}
+		return id
+	}
+	VerifStepFn = func(vm *VM, fn *CompiledFunction, fi, ip int, op Opcode, sp, nh int) {
+		mu.Lock()
+		defer mu.Unlock()
+		if len(fn.Instructions) == 0 {
+			return
+		}
+		key := &fn.Instructions[0]
+		id, ok := fnids[key]
+		if !ok {
+			id = len(fnids) + 1
+			fnids[key] = id
+			enc.Encode(map[string]any{"ev": "fn", "fn": id, "regs": VerifRegions(fn.Instructions)})
+		}
+		a := 0
+		if w := OpcodeOperands[op]; len(w) > 0 && ip+w[0] < len(fn.Instructions) {
+			for k := 0; k < w[0]; k++ {
+				a = a<<8 | int(fn.Instructions[ip+1+k])
+			}
+		}
+		enc.Encode(map[string]any{"ev": "step", "vm": vmid(vm), "fn": id, "fi": fi, "ip": ip,
+			"op": OpcodeNames[op], "a": a, "sp": sp, "nh": nh})
+	}
+	VerifSyncFn = func(vm *VM, point string) {
+		if point != "run.enter" && point != "run.exit" {
+			return
+		}
+		mu.Lock()
+		defer mu.Unlock()
+		enc.Encode(map[string]any{"ev": point, "vm": vmid(vm), "err": vm.err != nil})
+		if point == "run.exit" {
+			w.Flush()
+		}
+	}
+}
